@@ -80,7 +80,12 @@ Definition check_eval (k : ecase) : bool :=
 (* the operations on a real contact's URN list whose effect depends on the URNs held *)
 Inductive urn_op := UAdd (u : urn) | URemove (u : urn) | UPrefer (c : option channel).
 
-Definition utriple : Type := (string * string * string)%type.   (* scheme, path, channel affinity *)
+(* scheme, path, channel affinity, and the URN TEXT scheme:path#display as stored afterwards: an operation that
+   re-normalizes a held URN (a tel path gaining a +, a lower-cased address) shows up here *)
+Definition utriple : Type := (string * string * string * string)%type.
+
+Definition urn_text (u : urn) : string :=
+  u_scheme u ++ ":" ++ u_path u ++ (if String.eqb (u_display u) "" then "" else "#" ++ u_display u).
 Record ocase := { o_op : urn_op; o_before : list urn; o_after : list utriple }.
 
 Definition apply_op (op : urn_op) (us : list urn) : list urn :=
@@ -93,12 +98,13 @@ Definition apply_op (op : urn_op) (us : list urn) : list urn :=
 Fixpoint utriples_eqb (a b : list utriple) : bool :=
   match a, b with
   | [], [] => true
-  | (s, p, c) :: a', (s', p', c') :: b' => String.eqb s s' && String.eqb p p' && String.eqb c c' && utriples_eqb a' b'
+  | (s, p, c, t) :: a', (s', p', c', t') :: b' =>
+      String.eqb s s' && String.eqb p p' && String.eqb c c' && String.eqb t t' && utriples_eqb a' b'
   | _, _ => false
   end.
 
 Definition check_op (k : ocase) : bool :=
-  utriples_eqb (map (fun u => (u_scheme u, u_path u, u_affinity u)) (apply_op (o_op k) (o_before k))) (o_after k).
+  utriples_eqb (map (fun u => (u_scheme u, u_path u, u_affinity u, urn_text u)) (apply_op (o_op k) (o_before k))) (o_after k).
 
 Inductive case := CCtx (k : ccase) | CQuery (k : qcase) | CEval (k : ecase) | COp (k : ocase).
 
